@@ -13,6 +13,8 @@
 (*   kind "fail"  a call made to fail (broken writer, refused frame, truncated input); must return an error    *)
 (*   kind "hold"  a call whose result the caller keeps (a raw frame): F(n), now and at every later step         *)
 (*   kind "use"   a call that consumes the OLDEST held result h: its result must be G(F(h))                     *)
+(*   kind "keep"  a call whose result (a byte slice) the caller keeps for good: F(n), now and at every later    *)
+(*                step (an encoder must not hand out memory it will write to again)                             *)
 (* F and G are uninterpreted (free terms).  TLC enumerates every history up to MaxLen, checks Independent and  *)
 (* Stable in every state and prints every maximal history; the harness executes each one on real codec          *)
 (* instances and compares every result with the reference computed once, from a clean process, for the same   *)
@@ -31,10 +33,11 @@ None == <<"none">>
 
 VARIABLES hist,     \* the calls made so far: [n, k, res]
           held,     \* results the caller still holds: [n, val]   (val = what the memory reads now)
+          kept,     \* results the caller keeps for good: [n, val]
           scratch   \* Hidden only: what the codec's scratch buffer holds (None: clean)
-vars == <<hist, held, scratch>>
+vars == <<hist, held, kept, scratch>>
 
-Init == hist = <<>> /\ held = <<>> /\ scratch = None
+Init == hist = <<>> /\ held = <<>> /\ kept = <<>> /\ scratch = None
 
 \* what a call computes: from its own arguments - or, with the mistake, from whatever the scratch buffer holds
 Result(x) == IF Hidden /\ scratch # None THEN <<"stale", scratch, x>> ELSE x
@@ -44,22 +47,31 @@ Do(o) ==
     /\ CASE o.k = "ok" ->
               /\ hist' = Append(hist, [n |-> o.n, k |-> o.k, res |-> Result(F(o.n))])
               /\ scratch' = None
+              /\ UNCHANGED <<held, kept>>
+         [] o.k = "keep" ->
+              /\ hist' = Append(hist, [n |-> o.n, k |-> o.k, res |-> Result(F(o.n))])
+              \* the mistake: the result lives in the scratch buffer, and so did the ones kept before
+              /\ kept' = IF Hidden THEN [i \in 1..Len(kept) |-> [kept[i] EXCEPT !.val = <<"overwritten", F(o.n)>>]] \o <<[n |-> o.n, val |-> Result(F(o.n))]>>
+                         ELSE Append(kept, [n |-> o.n, val |-> F(o.n)])
+              /\ scratch' = None
               /\ UNCHANGED held
          [] o.k = "fail" ->
               /\ hist' = Append(hist, [n |-> o.n, k |-> o.k, res |-> Err])
               /\ scratch' = IF Hidden THEN F(o.n) ELSE None            \* the mistake: the half-written bytes stay behind
-              /\ UNCHANGED held
+              /\ UNCHANGED <<held, kept>>
          [] o.k = "hold" ->
               /\ hist' = Append(hist, [n |-> o.n, k |-> o.k, res |-> Result(F(o.n))])
               \* the mistake: the new result lives in the scratch buffer, and so did the previous one
               /\ held' = IF Hidden THEN [i \in 1..Len(held) |-> [held[i] EXCEPT !.val = <<"overwritten", F(o.n)>>]] \o <<[n |-> o.n, val |-> Result(F(o.n))]>>
                          ELSE Append(held, [n |-> o.n, val |-> F(o.n)])
               /\ scratch' = None
+              /\ UNCHANGED kept
          [] o.k = "use" ->
               /\ held # <<>>
               /\ hist' = Append(hist, [n |-> o.n, k |-> o.k, res |-> G(Head(held).val)])
               /\ held' = Tail(held)
               /\ scratch' = None
+              /\ UNCHANGED kept
 
 Next == \E o \in Ops : Do(o)
 Spec == Init /\ [][Next]_vars
@@ -70,11 +82,12 @@ HeldBefore(i) == LET hs == SelectSeq(SubSeq(hist, 1, i - 1), LAMBDA e : e.k = "h
                  IN hs[Len(us) + 1].n
 Independent == \A i \in 1..Len(hist) :
                  LET e == hist[i] IN
-                 CASE e.k \in {"ok", "hold"} -> e.res = F(e.n)
+                 CASE e.k \in {"ok", "hold", "keep"} -> e.res = F(e.n)
                    [] e.k = "fail" -> e.res = Err
                    [] e.k = "use" -> e.res = G(F(HeldBefore(i)))
 \* what the caller holds reads as it was returned
-Stable == \A i \in 1..Len(held) : held[i].val = F(held[i].n)
+Stable == /\ \A i \in 1..Len(held) : held[i].val = F(held[i].n)
+          /\ \A i \in 1..Len(kept) : kept[i].val = F(kept[i].n)
 
 \* maximal histories are printed for replay
 Emit == (Len(hist) = MaxLen) => PrintT(<<"HIST", ToJson([h |-> [i \in 1..Len(hist) |-> [n |-> hist[i].n, k |-> hist[i].k]]])>>)
